@@ -1,4 +1,5 @@
 import ActixModel.Proofs.Route
+import ActixModel.Proofs.RouteMini
 /-
 C09 — app routing picks the first registered match and exposes exactly its parameters.
 
@@ -299,5 +300,87 @@ theorem C09_405 (matchPat : Matcher Pat) (app : App Pat) (req : Req)
     simp only [hn, Node.level, firstRoute_eq_none.2 hall] at he
     rw [he, finalFallback_last_resource _ hl hn]
     simp [effDefault]
+
+
+/-! ## segment boundaries -/
+
+/-- **C09_segment_boundary**: for every matcher whose prefix mode ends at a segment boundary
+(`PrefixBoundary`: the pattern language of C10), every scope on the chosen path leaves an unmatched
+rest that is empty or starts with `/` — children are always matched at a segment boundary. -/
+theorem C09_segment_boundary (matchPat : Matcher Pat) (law : PrefixBoundary matchPat)
+    (app : App Pat) (req : Req) (steps : List (Step Pat)) (st' : St)
+    (h : ChosenPath matchPat app req steps st')
+    (pre : List (Step Pat)) (s : Step Pat) (post : List (Step Pat))
+    (hs : steps = pre ++ s :: post) (hscope : s.node.isPrefix = true) :
+    req.path.drop (lensOf pre + s.len) = [] ∨
+      (req.path.drop (lensOf pre + s.len)).head? = some '/' := by
+  have hm := (C09_params_exact matchPat app req steps st' h).2.2.2.2 pre s post hs
+  rw [hscope] at hm
+  have := law _ _ _ _ hm
+  simpa [List.drop_drop] using this
+
+/-- **C09_resource_consumes**: for every matcher whose full mode consumes its input (`FullMatch`), a
+request answered through a resource (handler, resource default or 405) has no unprocessed path
+left. -/
+theorem C09_resource_consumes (matchPat : Matcher Pat) (law : FullMatch matchPat)
+    (app : App Pat) (req : Req) (steps : List (Step Pat)) (st' : St)
+    (h : ChosenPath matchPat app req steps st') (s : Step Pat)
+    (hl : steps.getLast? = some s) (hres : s.node.isPrefix = false) :
+    unprocessed req (routeApp matchPat app req).st = [] := by
+  obtain ⟨init, rfl⟩ : ∃ init, steps = init ++ [s] := by
+    rcases List.eq_nil_or_concat steps with rfl | ⟨init, x, rfl⟩
+    · simp at hl
+    · simp at hl; exact ⟨init, by simp [hl]⟩
+  obtain ⟨hskip, _, _, _, hmatch⟩ := C09_params_exact matchPat app req _ st' h
+  have hm := hmatch init s [] rfl
+  rw [hres] at hm
+  have := law _ _ _ _ hm
+  simp only [unprocessed, hskip, lensOf, List.map_append, List.sum_append, List.map_cons,
+    List.map_nil, List.sum_cons, List.sum_nil, Nat.add_zero]
+  simpa [List.drop_drop, lensOf] using this
+
+/-- the stand-in matcher of the driver satisfies both laws (non-vacuity of the two theorems above) -/
+theorem C09_mini_laws :
+    PrefixBoundary RouteMini.miniMatch ∧ FullMatch RouteMini.miniMatch :=
+  ⟨RouteMini.miniMatch_prefixBoundary, RouteMini.miniMatch_fullMatch⟩
+
+/-- **C09_boundary**: percent-decoding never moves a segment boundary.  For every `requote` that
+copies a literal `/` and decodes independently on both sides of it, and never decodes anything
+*to* a `/` (`SlashLaw`: `%2F` stays encoded — C10 proves this of `Quoter::requote` for every
+protected set containing `/`), the segments of the decoded path are the decoded segments of the
+raw path: same number, same order, none merged or split. -/
+theorem C09_boundary (rq : Chars → Chars) (law : RouteMini.SlashLaw rq) (raw : Chars) :
+    RouteMini.splitSlash (rq raw) = (RouteMini.splitSlash raw).map rq :=
+  RouteMini.split_requote law raw
+
+/-- … in particular the number of segments (of literal `/`) is unchanged -/
+theorem C09_boundary_count (rq : Chars → Chars) (law : RouteMini.SlashLaw rq) (raw : Chars) :
+    (RouteMini.splitSlash (rq raw)).length = (RouteMini.splitSlash raw).length := by
+  rw [C09_boundary rq law raw, List.length_map]
+
+/-- the modelled `Quoter::requote` (protected `%/+`, as in `url.rs`) satisfies the law, so the
+theorem applies to the model the correspondence runs against the code -/
+theorem C09_boundary_quoter (raw : Chars) :
+    RouteMini.splitSlash (RouteMini.requote raw) =
+      (RouteMini.splitSlash raw).map RouteMini.requote :=
+  C09_boundary _ RouteMini.requote_law raw
+
+/-! ## registration -/
+
+/-- `ensure_leading_slash` / `insert_slash` (`register`): a registered pattern is empty or starts
+with `/`, and registering is idempotent -/
+theorem C09_register_slash (p : Chars) :
+    (RouteMini.ensureLeadingSlash p = [] ∨ (RouteMini.ensureLeadingSlash p).head? = some '/') ∧
+    RouteMini.ensureLeadingSlash (RouteMini.ensureLeadingSlash p) = RouteMini.ensureLeadingSlash p := by
+  unfold RouteMini.ensureLeadingSlash
+  cases p with
+  | nil => simp
+  | cons c rest =>
+    by_cases hc : c = '/'
+    · subst hc; simp
+    · constructor
+      · right
+        split <;> simp_all
+      · split <;> simp_all
 
 end ActixModel.Route.C09
